@@ -454,6 +454,11 @@ func (s *Sim) Run() {
 	s.waitFor(150*time.Millisecond, func(Obs) bool { return false })
 	o := s.Observe()
 	s.out("final", o.String()+" "+s.chainCheck())
+	s.askedLines()
+}
+
+// askedLines: which kinds of requests each peer has received so far.
+func (s *Sim) askedLines() {
 	for _, p := range s.Peers {
 		s.out(fmt.Sprintf("asked %d", p.Idx), fmt.Sprintf("getheaders %d getcfcheckpt %d getcfheaders %d getcfilters %d getdata %d sessions %d lied %d",
 			min1(atomic.LoadInt32(&p.GotGetHeaders)), min1(atomic.LoadInt32(&p.GotGetCFCheckpt)), min1(atomic.LoadInt32(&p.GotGetCFHeaders)), min1(atomic.LoadInt32(&p.GotGetCFilters)), min1(atomic.LoadInt32(&p.GotGetData)),
